@@ -156,6 +156,150 @@ theorem interp1_hits_samples (ext : Bool) (knots vals : List K) (first : Bool)
       (by rw [List.zip_map_left]; exact List.mem_map.mpr ⟨xv, hxv, rfl⟩)
     simpa using this
 
+/-! ### sample hitting in any dimension (supersedes the 1-D `head?` form above) -/
+
+/-- one axis, ascending knots, any block size and any inner interpolant that is defined on every block:
+at the `i`-th knot the axis returns what the inner interpolant returns on the `i`-th block -/
+theorem interpAxis_hits_inc (ext : Bool) (m : Nat) (rec : List K → Option K) :
+    ∀ (knots vals : List K) (first : Bool), 2 ≤ knots.length → StrictInc knots →
+      (∀ j < knots.length, ∃ w, rec ((vals.drop (j * m)).take m) = some w) →
+      ∀ (i : Nat) (hi : i < knots.length),
+        interpAxis ext m rec first knots vals knots[i] = rec ((vals.drop (i * m)).take m) := by
+  intro knots
+  induction knots with
+  | nil => intro vals first h2; simp at h2
+  | cons a knots ih =>
+    intro vals first h2 hs hrec i hi
+    match knots, h2, hs, hrec, hi with
+    | b :: rest, _, hs, hrec, hi =>
+      have hab : a < b := hs.1
+      obtain ⟨va, hva⟩ := hrec 0 (by simp)
+      obtain ⟨vb, hvb⟩ := hrec 1 (by simp)
+      simp only [Nat.zero_mul, List.drop_zero, Nat.one_mul] at hva hvb
+      cases i with
+      | zero =>
+        have hc : (((ext && first) || decide (a ≤ a)) && ((ext && rest.isEmpty) || decide (a ≤ b))) = true := by
+          simp [le_of_lt hab]
+        simp only [List.getElem_cons_zero, interpAxis, inLo_inc hab, inHi_inc hab, Nat.zero_mul, List.drop_zero]
+        rw [hc]
+        simp [hva, hvb, (lerp_hits_samples a b va vb (ne_of_lt hab)).1]
+      | succ i =>
+        simp only [List.getElem_cons_succ]
+        have hi' : i < (b :: rest).length := by simpa using hi
+        have hbx : b ≤ (b :: rest)[i] := by
+          cases i with
+          | zero => simp
+          | succ k => exact le_of_lt (knot_gt b rest hs.2 _ (List.getElem_mem _))
+        have hax : a ≤ (b :: rest)[i] := le_trans (le_of_lt hab) hbx
+        have hdrop : (vals.drop m).drop (i * m) = vals.drop ((i + 1) * m) := by
+          rw [List.drop_drop]; congr 1; ring
+        by_cases hxb : (b :: rest)[i] ≤ b
+        · have heq : (b :: rest)[i] = b := le_antisymm hxb hbx
+          have hi0 : i = 0 := by
+            cases i with
+            | zero => rfl
+            | succ k =>
+              have := knot_gt b rest hs.2 _ (List.getElem_mem (l := rest) (n := k) (by simpa using hi'))
+              simp only [List.getElem_cons_succ] at heq
+              rw [heq] at this
+              exact absurd this (lt_irrefl _)
+          subst hi0
+          have hc : (((ext && first) || decide (a ≤ b)) && ((ext && rest.isEmpty) || decide (b ≤ b))) = true := by
+            simp [le_of_lt hab]
+          simp only [List.getElem_cons_zero, interpAxis, inLo_inc hab, inHi_inc hab, Nat.zero_add, Nat.one_mul]
+          rw [hc]
+          simp [hva, hvb, (lerp_hits_samples a b va vb (ne_of_lt hab)).2]
+        · have hne : rest ≠ [] := by
+            intro h; subst h
+            have : i = 0 := by simpa using hi'
+            subst this
+            exact hxb (le_refl _)
+          have hc : (((ext && first) || decide (a ≤ (b :: rest)[i])) && ((ext && rest.isEmpty) || decide ((b :: rest)[i] ≤ b))) = false := by
+            simp [hxb, hne]
+          have hlen : 2 ≤ (b :: rest).length := by
+            cases rest with
+            | nil => exact absurd rfl hne
+            | cons c r => simp
+          have hrec' : ∀ j < (b :: rest).length, ∃ w, rec (((vals.drop m).drop (j * m)).take m) = some w := by
+            intro j hj
+            obtain ⟨w, hw⟩ := hrec (j + 1) (by simpa using hj)
+            refine ⟨w, ?_⟩
+            rw [List.drop_drop]
+            have : m + j * m = (j + 1) * m := by ring
+            rw [this]; exact hw
+          have := ih (vals.drop m) false hlen hs.2 hrec' i hi'
+          rw [interpAxis]
+          simp only [inLo_inc hab, inHi_inc hab]
+          rw [hc]
+          simp only [Bool.false_eq_true, if_false]
+          rw [this, hdrop]
+
+theorem interpAxis_hits (ext : Bool) (m : Nat) (rec : List K → Option K) (knots vals : List K) (first : Bool)
+    (h2 : 2 ≤ knots.length) (hs : StrictMono knots)
+    (hrec : ∀ j < knots.length, ∃ w, rec ((vals.drop (j * m)).take m) = some w) (i : Nat) (hi : i < knots.length) :
+    interpAxis ext m rec first knots vals knots[i] = rec ((vals.drop (i * m)).take m) := by
+  rcases hs with hs | hs
+  · exact interpAxis_hits_inc ext m rec knots vals first h2 hs hrec i hi
+  · rw [interpAxis_neg ext m rec knots vals first _ hs]
+    have := interpAxis_hits_inc ext m rec (knots.map fun t => -t) vals first (by simpa using h2)
+      (strictDec_neg _ hs) (by simpa using hrec) i (by simpa using hi)
+    simpa using this
+
+/-- **N-D: the tensor-product interpolant returns the sample at every grid point**, for arbitrary sample
+values: at the grid point with per-axis indices `idx` it returns the value stored at flat index `ravel dims idx`. -/
+theorem interpFlat_hits_samples (ext : Bool) : ∀ (axes : List (List K)) (vals : List K) (idx : List Nat),
+    (∀ ax ∈ axes, 2 ≤ ax.length ∧ StrictMono ax) → vals.length = size (axes.map List.length) → IdxOk axes idx →
+    interpFlat ext axes vals (pointAt axes idx) = vals[ravel (axes.map List.length) idx]? := by
+  intro axes
+  induction axes with
+  | nil =>
+    intro vals idx _ hv hok
+    cases idx with
+    | nil =>
+      match vals, hv with
+      | [v], _ => simp [interpFlat, pointAt, ravel]
+    | cons i idx => simp [IdxOk] at hok
+  | cons ax rest ih =>
+    intro vals idx hax hv hok
+    cases idx with
+    | nil => simp [IdxOk] at hok
+    | cons i idx =>
+      obtain ⟨h0, h1⟩ := hok
+      have hrest : ∀ a ∈ rest, 2 ≤ a.length ∧ StrictMono a := fun a ha => hax a (by simp [ha])
+      simp only [List.map_cons, size_cons] at hv
+      set M := size (rest.map List.length) with hM
+      have hblk : ∀ j < ax.length, ((vals.drop (j * M)).take M).length = M := by
+        intro j hj
+        rw [List.length_take, List.length_drop, hv]
+        have : (j + 1) * M ≤ ax.length * M := Nat.mul_le_mul_right _ hj
+        have e : (j + 1) * M = j * M + M := by ring
+        omega
+      have hr := ravel_lt_size rest idx h1
+      have hrec : ∀ j < ax.length, ∃ w, (fun v => interpFlat ext rest v (pointAt rest idx)) ((vals.drop (j * M)).take M) = some w := by
+        intro j hj
+        simp only
+        rw [ih _ idx hrest (hblk j hj) h1]
+        exact ⟨_, List.getElem?_eq_getElem (by rw [hblk j hj]; exact hr)⟩
+      have hg : ax.getD i 0 = ax[i] := by simp [List.getD_eq_getElem?_getD, List.getElem?_eq_getElem h0]
+      simp only [pointAt, interpFlat, List.map_cons, ravel, hg]
+      rw [interpAxis_hits ext M _ ax vals true (hax ax (by simp)).1 (hax ax (by simp)).2 hrec i h0]
+      rw [ih _ idx hrest (hblk i h0) h1, take_drop_getElem? _ _ _ _ hr]
+
+/-- **Linear interpolation on separated / regular grids returns the sample at every sample point** (any dimension,
+knots strictly monotone in either direction per axis, arbitrary sample values `f q`, `q` running over the grid in
+hcipy order). -/
+theorem linearSeparated_hits_samples (ext : Bool) (sep : List (List K)) (f : List K → K)
+    (hax : ∀ ax ∈ sep, 2 ≤ ax.length ∧ StrictMono ax) :
+    ∀ q ∈ gridPts sep, linearSeparated ext sep ((gridPts sep).map f) q = some (f q) := by
+  intro q hq
+  obtain ⟨t, ht, rfl⟩ := List.mem_map.mp hq
+  obtain ⟨idx, hok, rfl⟩ := mem_tensorPts_pointAt sep.reverse t ht
+  unfold linearSeparated
+  rw [List.reverse_reverse, interpFlat_hits_samples ext sep.reverse _ idx
+    (fun ax ha => hax ax (List.mem_reverse.mp ha)) (by simp [gridPts, tensorPts_len]) hok]
+  simp only [gridPts, List.map_map, List.getElem?_map, tensorPts_getElem?_ravel sep.reverse idx hok,
+    Option.map_some, Function.comp]
+
 /-! ## barycentric interpolation -/
 
 /-- **Barycentric interpolation on any simplex (any dimension) is exact on affine functions**:
